@@ -61,6 +61,10 @@ def enc_cuts(shape):
     return [r"encoder::(%s)$" % v for k, v in ENC_FN.items() if k not in need]
 
 
+# variant the decoder returns for the reference encoding of each shape (asserted by C01 for the owned decoder and by C13 for the zero-copy one)
+KIND = {"int_small": 0, "int_i32": 0, "int_w4": 1, "int_w5": 1, "int_w8": 1, "float": 2, "big1": 1, "big3": 1, "big8": 1, "big9": 1, "atom1": 3,
+        "atom2": 3, "bin0": 4, "bin1": 4, "bin2": 4, "bit1": 5, "bit2": 5, "nil": 6, "pid": 7, "port": 8, "ref1": 9, "ref2": 9, "extfun": 10,
+        "tuple0": 11, "tuple1i": 11, "list1": 12, "imp1": 13}
 MODES = {"int_small": (10, 0), "int_i32": (11, 0), "int_w4": (12, 4), "int_w5": (12, 5), "int_w8": (12, 8),
          "big1": (12, 1), "big3": (12, 3), "big8": (12, 8), "big9": (12, 9)}
 
@@ -81,7 +85,7 @@ def generate(tier, seed):
         cont = s in ("tuple1i", "list1", "imp1")
         for kind, re in (("dec", "false"), ("rt", "true")):
             n = "c01_%s__%s" % (kind, s)
-            src.append(fn(n, "    let (t, r) = %s;\n    dec(&r, %d, %d, %d, %s);\n    vk::leak(t); vk::leak(r);" % (expr(s), mode[0], mode[1], 1 if s.startswith("bit") else 0, re)))
+            src.append(fn(n, "    let (t, r) = %s;\n    dec(&r, %d, %d, %d, %s, %d);\n    vk::leak(t); vk::leak(r);" % (expr(s), mode[0], mode[1], 1 if s.startswith("bit") else 0, re, KIND[s])))
             hs.append(Harness(n, ("decode(reference encoding of r) is Ok and denotes r" + ("; re-encoding it gives the same bytes" if kind == "rt" else "")) + " — shape %s" % s,
                               unwind=6, unwindset=UWS, cap_s=600, cuts=CUTS_NOZ + enc_cuts(s),
                               recursion=[(r"encode_term_impl|parse_term_from_tag|parse_term$|refetf::(accepts_at|denotes|emit)", 2 if cont else 1)]))
